@@ -19,3 +19,8 @@ Definition plan_log (W : Expand.World) (fuel : nat) (l : str)
   : Expand.res (Expand.tokens * list str * plan_result) :=
   Expand.bind (Expand.do_expansion_log Tokenizer.parse_line W fuel (Tokenizer.parse_line l))
               (fun x => Expand.Ok (fst x, snd x, Redirect.plan_tokens (fst x))).
+
+(** [plan] from the token list on (what from_line does after [parse_line]) *)
+Definition plan_toks (W : Expand.World) (fuel : nat) (toks : Expand.tokens) : Expand.res plan_result :=
+  Expand.bind (Expand.do_expansion Tokenizer.parse_line W fuel toks)
+              (fun toks' => Expand.Ok (Redirect.plan_tokens toks')).
